@@ -322,12 +322,26 @@ func lookupDelimIndex(ch rune) int {
 	return -1
 }
 
+// isOpeningDelim returns true if the delimiter at [index] in [pairedDelims] is an opening one:
+// the entries with an even index, but for the ornate parentheses (U+FD3E is the closing
+// one, U+FD3F the opening one)
+func isOpeningDelim(index int) bool {
+	switch pairedDelims[index] {
+	case 0xfd3e:
+		return false
+	case 0xfd3f:
+		return true
+	}
+	return index%2 == 0
+}
+
 // openingDelimIndex returns the index in [pairedDelims] of the opening delimiter
 // matching the closing one at [closeIndex]: the previous entry, but for two pairs of
-// brackets which are not adjacent in code point order (U+298D with U+2990, U+298F with U+298E)
+// brackets which are not adjacent in code point order (U+298D with U+2990, U+298F with U+298E),
+// and for the ornate parentheses (U+FD3F opens, U+FD3E closes)
 func openingDelimIndex(closeIndex int) int {
 	switch pairedDelims[closeIndex] {
-	case 0x298e:
+	case 0x298e, 0xfd3e:
 		return closeIndex + 1
 	case 0x2990:
 		return closeIndex - 3
@@ -354,7 +368,7 @@ func (seg *Segmenter) splitByScript() {
 			}
 
 			if delimIndex >= 0 { // handle paired characters
-				if delimIndex%2 == 0 {
+				if isOpeningDelim(delimIndex) {
 					// this is an open character : push it onto the stack
 					seg.delimStack = append(seg.delimStack, delimEntry{delimIndex, currentInput.Script})
 				} else {
